@@ -56,11 +56,38 @@ def run(ctx: Ctx) -> None:
     tables.rule_config_domain(ctx, ATS, "AlternateTargetSolver.solve", "AlternateTargetSolverSetting", "lc_method")
     tables.rule_api_numpy(ctx, [RELABEL])
     rule_alignment(ctx)
+    rule_target_labels(ctx)
     rule_conversion_guard(ctx)
     rule_dedup_all(ctx)
     rule_str_to_op(ctx)
     ctx.floor("flow.exactly-once", 4)
     ctx.floor("vocab.gates", 6)
+
+
+def rule_target_labels(ctx: Ctx) -> None:
+    """relabel.target-labels: every reported relabel map is `get_relabel_map(self.target_graph, iso_graph)`: its keys are the vertices of
+    self.target_graph.  So self.target_graph carries the *user's* vertex names: it is the graph that was passed in (or the graph of the state
+    that was passed in), never a renumbered copy — with convert_node_labels_to_integers / relabel_nodes the maps are keyed by positions the
+    user never saw."""
+    repo = ctx.repo
+    m = repo.module(ATS)
+    ci = repo.cls("AlternateTargetSolver", ATS)
+    init = ci.methods().get("__init__")
+    if init is None:
+        raise AnalysisError("AlternateTargetSolver.__init__ missing")
+    ctx.touch(m, init)
+    sets = [a for a in ast.walk(init) if isinstance(a, ast.Assign) and any(norm(t) == "self.target_graph" for t in a.targets)]
+    if not sets:
+        raise AnalysisError("AlternateTargetSolver.__init__: self.target_graph is never set")
+    for a in sets:
+        t = norm(a.value)
+        if "convert_node_labels_to_integers" in t or "relabel_nodes" in t or "from_numpy_array(nx.to_numpy_array" in t:
+            ctx.fail("relabel.target-labels", m, a,
+                     f"AlternateTargetSolver.__init__ stores `{short(a.value, 70)}` as the target graph: the relabel maps returned with every result are keyed by this "
+                     f"graph's vertices, so for a target whose vertices are not 0..n-1 in order the maps no longer speak about the user's vertex names",
+                     func="AlternateTargetSolver.__init__", construct="AlternateTargetSolver: target graph renumbered")
+        else:
+            ctx.ok("relabel.target-labels", m, a, what="target graph keeps the user's vertex names")
 
 
 def _loop_item(lp: ast.For) -> str:
@@ -514,6 +541,7 @@ def _edit_dedup_helper(src: str) -> str:
 
 
 KNOCKOUTS = [
+    Knockout("target-graph-renumbered", ATS, sub_once("            self.target_graph = target\n", "            self.target_graph = nx.convert_node_labels_to_integers(target)\n"), "relabel.target-labels", "renumbered"),
     Knockout("first-isomorph-map-by-position", ATS, sub_once("            rmap = get_relabel_map(self.target_graph, iso_graph)\n", "            rmap = get_relabel_map(self.target_graph, iso_graph)\n            if iso_graph is iso_graphs[0]:\n                rmap = {-1: \"self\", **dict(zip(self.target_graph.nodes(), iso_graph.nodes()))}\n"), "flow.exactly-once", "without the matcher"),
     Knockout("dedup-skips-new-groups", ATS, sub_once("            if not already_found:\n                s = {i}", "            if already_found:\n                s = {i}"), "dedup.model", "survive although"),
     Knockout("dedup-found-in-any-other-group", ATS, sub_once("                if i in s:\n                    already_found = True", "                if i not in s:\n                    already_found = True"), "dedup.model", "duplicate filter"),
